@@ -51,7 +51,11 @@ impl InfoReplySubmessage {
 
 impl Submessage for InfoReplySubmessage {
     fn write_submessage_header_into_bytes(&self, octets_to_next_header: u16, buf: &mut dyn Write) {
-        SubmessageHeaderWrite::new(SubmessageKind::INFO_REPLY, &[], octets_to_next_header)
+        SubmessageHeaderWrite::new(
+            SubmessageKind::INFO_REPLY,
+            &[self.multicast_flag],
+            octets_to_next_header,
+        )
             .write_into_bytes(buf);
     }
 
